@@ -20,10 +20,10 @@ TECHNIQUE = {
     "C01": 'CFG definite-divergence analysis of every while loop (stuck back-edge paths); may-be-None dataflow over the CFG of every parser function (unguarded dereference); regex parse-tree analysis (re._parser) for repeated groups with overlapping iterations; pure stdlib ast',
     "C02": 'AST table agreement + sentinel alphabet + handler stack pairing + field-consumption def-use over the regeneration call graph + single-valued-flag contradiction rule',
     "C04": "who-may-construct / name-agreement tables / pop-implies-end-emitted pairing on the parser's token stack (ast + call graph) + single-valued-flag contradiction rule + must-pass-through pairing of 'replacement token put into the stream' with 're-point the stack entry' (CFG)",
-    "C07": 'try-containment of plugin callbacks, who-may-call, comparator-shape, single output path, set-order and temp-name taint, constant-format-template rule, may-be-None dataflow over rule code (ast + CFG + call graph) + typestate of the token a rule reports at (kind established or end of stream excluded on the path)',
+    "C07": 'try-containment of plugin callbacks, who-may-call, comparator-shape, single output path, set-order and temp-name taint, constant-format-template rule, may-be-None dataflow over rule code (ast + CFG + call graph) + typestate of the token a rule reports at (kind established or end of stream excluded on the path); length-guard / constant-index contradiction rule over every conjunction',
     "C10": 'call-graph reachability scan->file-mutation sinks; flag provenance / monotone accumulation of the fixed flag (ast def-use); temp-file pairing on all exits; abstract interpretation of the run driver over a finite domain (thorough tier)',
     "C11": 'pragma filter in disjunctive normal form (line test, rule-id test, independence of the two tables), pragma-first ordering, compile-before-first-collecting-callback event order, sign-encoded key decoding, per-file reset, table writers, gating (ast + CFG + event-order product) + recogniser/compiler agreement on trailing whitespace and documented closing sequences, every-entry search, sign-aware ordering and arithmetic on the keys',
-    "C12": 'no run-time writes to class/module state in rules (including class-level containers mutated through instances), helper ownership, token-mutator and token-container receivers, dispatcher-visible context state, four-way dispatch-table agreement, own-section lookup (ast + call graph) + no rule reads the plugin manager through its context; a scan tokenizes unconditionally',
+    "C12": 'no run-time writes to class/module state in rules (including class-level containers mutated through instances), helper ownership, token-mutator and token-container receivers, dispatcher-visible context state, four-way dispatch-table agreement, own-section lookup (ast + call graph) + no rule reads the plugin manager through its context; a scan tokenizes unconditionally; length-guard / constant-index contradiction rule over every conjunction',
     "C13": 'state-reset analysis: fields written on the per-file path vs fields killed on every path of the reset entry (rules, helpers, every field of the plugin manager, tokenizer), aliasing resets, dominance of parser-static initialisers (ast + call graph + CFG) + dispatch lists written only by the configuration step; no memoised methods on rules',
     "C14": 'event-order summaries of the scan/fix passes checked against the life-cycle regular language; provider typestate; reaching definitions in dispatchers; sibling agreement of the tokenizer call sites and of the per-pass context maps + frozen dispatch lists, fix-line emptied before the callback on every fix-mode path, newline mode and whole-file read of the provider, case-normalisation dataflow of the identifiers a rule is registered under',
     "C15": 'exception-containment/routing over CFG exception edges (may-raise fixpoint), status value-flow, reported=>failed, temp-file release on all exits (pairing), atomic write-back rule, abstract interpretation of the run driver with fault points (thorough tier) + every handler of the run driver reports or re-raises on every path (CFG), staged copy: mode kept, handle closed, user"s file never removed, staging name made by tempfile; strict decoding of document opens',
